@@ -74,63 +74,63 @@ package bytes
 //@   nopanic
 
 //@ func (*ByteBuffer).WriteUint16
-//@   prop C12
+//@   prop C12 C13
 //@   requires b != nil && b.buf != nil
 //@   modifies content(b)
 //@   ensures post: content(b) == old(content(b)) + be16(p) && result1 == nil
 //@   nopanic
 
 //@ func (*ByteBuffer).WriteUint32
-//@   prop C12
+//@   prop C12 C13
 //@   requires b != nil && b.buf != nil
 //@   modifies content(b)
 //@   ensures post: content(b) == old(content(b)) + be32(p) && result1 == nil
 //@   nopanic
 
 //@ func (*ByteBuffer).WriteUint64
-//@   prop C12
+//@   prop C12 C13
 //@   requires b != nil && b.buf != nil
 //@   modifies content(b)
 //@   ensures post: content(b) == old(content(b)) + be64(p) && result1 == nil
 //@   nopanic
 
 //@ func (*ByteBuffer).WriteInt64
-//@   prop C12
+//@   prop C12 C13
 //@   requires b != nil && b.buf != nil
 //@   modifies content(b)
 //@   ensures post: content(b) == old(content(b)) + be64(p % pow2(64)) && result1 == nil
 //@   nopanic
 
 //@ func UInt16ToBytes
-//@   prop C12
+//@   prop C12 C13
 //@   ensures post: result == be16(v) && result != nil
 //@   nopanic
 //@ func UInt32ToBytes
-//@   prop C12
+//@   prop C12 C13
 //@   ensures post: result == be32(v) && result != nil
 //@   nopanic
 //@ func UInt64ToBytes
-//@   prop C12
+//@   prop C12 C13
 //@   defs be64
 //@   ensures post: result == be64(v) && result != nil
 //@   nopanic
 //@ func Int64ToBytes
-//@   prop C12
+//@   prop C12 C13
 //@   defs be64
 //@   ensures post: result == be64(v % pow2(64)) && result != nil
 //@   nopanic
 //@ func Byte2UInt16
-//@   prop C12
+//@   prop C12 C13
 //@   requires len(data) >= 2
 //@   ensures post: result == un16(data[0:2])
 //@   nopanic
 //@ func Byte2UInt32
-//@   prop C12
+//@   prop C12 C13
 //@   requires len(data) >= 4
 //@   ensures post: result == un32(data[0:4])
 //@   nopanic
 //@ func Byte2UInt64
-//@   prop C12
+//@   prop C12 C13
 //@   defs be64
 //@   requires len(data) >= 8
 //@   ensures post: result == un64(data[0:8])
@@ -203,21 +203,21 @@ package bytes
 //@   nopanic
 
 //@ func WriteString8Length
-//@   prop C12
+//@   prop C12 C13
 //@   requires buf != nil && buf.buf != nil
 //@   modifies content(buf)
 //@   ensures post: content(buf) == old(content(buf)) + b8(len(value) % 256) + value
 //@   nopanic
 
 //@ func WriteString16Length
-//@   prop C12
+//@   prop C12 C13
 //@   requires buf != nil && buf.buf != nil
 //@   modifies content(buf)
 //@   ensures post: content(buf) == old(content(buf)) + be16(len(value) % 65536) + value
 //@   nopanic
 
 //@ func WriteString32Length
-//@   prop C12
+//@   prop C12 C13
 //@   requires buf != nil && buf.buf != nil
 //@   modifies content(buf)
 //@   ensures post: content(buf) == old(content(buf)) + be32(len(value) % pow2(32)) + value
